@@ -12,6 +12,11 @@ from . import common
 INL = ['fourier._dft2_matrices', 'fourier._dft2_coords']
 
 
+def fourier_inline(repo):
+    """Every helper of fourier.py is inlined (so that kernels built through new helpers are still understood)."""
+    return [f.key for f in repo.all_functions() if f.module.name == 'fourier' and f.name not in ('dft2', 'idft2')]
+
+
 def flatten_dot(t):
     a = t.single_atom() if isinstance(t, Poly) else None
     if a is not None and is_app(a, 'dot'):
@@ -64,7 +69,7 @@ def coord(n, sign, delta):
 def dft2_gain(repo, unitary):
     """Gain of dft2 (factor outside the triple product) under a flag value."""
     cfg = {'unitary': unitary, 'shape': pair('shape'), 'out': NONE}
-    f, paths, _ = analyse(repo, 'fourier.dft2', inline=INL, config=cfg)
+    f, paths, _ = analyse(repo, 'fourier.dft2', inline=fourier_inline(repo), config=cfg)
     gains = set()
     for p in returns(paths):
         sg = split_gain(p.ret)
@@ -95,7 +100,7 @@ def run_check(chk, repo, tier):
         M_, N_ = (shape_cfg.items if shape_cfg is not NONE else (m_, n_))
         for unitary, ulabel in ((TRUE, 'unitary=True'), (FALSE, 'unitary=False')):
             cfg = {'unitary': unitary, 'shape': shape_cfg}
-            f, paths, _ = analyse(repo, fdft, inline=INL, config=cfg)
+            f, paths, _ = analyse(repo, fdft, inline=fourier_inline(repo), config=cfg)
             rets = returns(paths)
             chk.require(rets, 'fourier.dft2 has no returning path')
             for p in rets:
@@ -117,32 +122,77 @@ def run_check(chk, repo, tier):
                        f.loc(p.node))
                 if not ok_c:
                     continue
-                k1, k2 = kernel_form(chain[0]), kernel_form(chain[2])
-                if k1 is None or k2 is None:
-                    raise AnalysisError('fourier.dft2: kernel is not exp(c*outer(A,B))')
+                # element-wise semantics of the two kernel matrices: E1[u, x] and E2[y, v]
+                from ..elem import ElemEval, Unsupported
+                from ..shapes import Shapes, declare_2d
+                ev = ElemEval(Shapes(declare_2d('f'), assume_scalar=True))
+                u, x, y, v = S('@u'), S('@x'), S('@y'), S('@v')
+                try:
+                    e1 = ev.at(chain[0], (u, x))
+                    e2 = ev.at(chain[2], (y, v))
+                except Unsupported as ex:
+                    raise AnalysisError(f'fourier.dft2: kernel not understood element-wise: {ex}')
                 kconst = -2 * nf.I * nf.PI
-                specs = [
-                    ('row', k1, a0, coord(M_, -1, shift.items[0]), coord(m_, 1, offset.items[0])),
-                    ('col', k2, a1, coord(n_, 1, offset.items[1]), coord(N_, -1, shift.items[1])),
-                ]
-                for axis, (kc, A, B), al, wantA, wantB in specs:
-                    chk.ob('C01-e', 'N-const', 'fourier._dft2_matrices', f'{axis} kernel constant [{label}]',
-                           kc / al == kconst, f'kernel constant is {fmt(kc / al)}, expected -2*pi*1j',
+                specs = [('row', e1, a0, (u - nf.floor(M_ / 2) - shift.items[0]), (x - nf.floor(m_ / 2) + offset.items[0]), u, x,
+                          M_, m_),
+                         ('col', e2, a1, (v - nf.floor(N_ / 2) - shift.items[1]), (y - nf.floor(n_ / 2) + offset.items[1]), v, y,
+                          N_, n_)]
+                for axis, el, al, out_c, in_c, so, si, n_out, n_in in specs:
+                    ea = el.single_atom()
+                    if ea is None or not is_app(ea, 'exp'):
+                        raise AnalysisError(f'fourier.dft2: {axis} kernel element is not exp(...): {fmt(el)[:200]}')
+                    phase = ea[2][0]
+                    want = kconst * al * out_c * in_c
+                    diff = phase - want
+                    if diff.is_zero():
+                        for cl, rule, role in (('C01-e', 'N-const', f'{axis} kernel constant [{label}]'),
+                                               ('C01-a', 'N-pairing', f'{axis} kernel alpha [{label}]'),
+                                               ('C01-d', 'N-origin', f'{axis} kernel coordinate origins [{label}]'),
+                                               ('C01-a', 'N-pairing', f'{axis} kernel offset/shift pairing [{label}]')):
+                            chk.ob(cl, rule, 'fourier._dft2_matrices', role, True,
+                                   f'phase[{fmt(so)},{fmt(si)}] = {fmt(phase)[:160]}', f.loc(p.node))
+                        continue
+                    # classify the discrepancy: phase/(-2 pi i alpha) must be (u + b)(x + c)
+                    soa, sia = so.single_atom(), si.single_atom()
+                    coef = {(1, 1): nf.ZERO, (1, 0): nf.ZERO, (0, 1): nf.ZERO, (0, 0): nf.ZERO}
+                    other = False
+                    for mono, c in phase.terms:
+                        d = dict(mono)
+                        key = (d.get(soa, 0), d.get(sia, 0))
+                        if key not in coef:
+                            other = True
+                            continue
+                        rest = tuple((a_, e_) for a_, e_ in mono if a_ not in (soa, sia))
+                        coef[key] = coef[key] + Poly(((rest, c),))
+                    A = coef[(1, 1)]
+                    const_ok = (not other) and bool(A.terms) and A / al == kconst
+                    alpha_ok = (not other) and A == kconst * al
+                    chk.ob('C01-e', 'N-const', 'fourier._dft2_matrices', f'{axis} kernel constant [{label}]', bool(const_ok),
+                           f'coefficient of the bilinear term is {fmt(A)}; expected -2*pi*1j*alpha', f.loc(p.node))
+                    chk.ob('C01-a', 'N-pairing', 'fourier._dft2_matrices', f'{axis} kernel alpha [{label}]', bool(alpha_ok),
+                           f'coefficient of the bilinear term is {fmt(A)}; expected {fmt(kconst * al)}', f.loc(p.node))
+                    if alpha_ok:
+                        bo = coef[(0, 1)] / A        # added to the output coordinate
+                        ci = coef[(1, 0)] / A        # added to the input coordinate
+                        want_bo = out_c - so
+                        want_ci = in_c - si
+                        fl = lambda t: {z for z in t.atoms(deep=False) if is_app(z, 'floor') or is_app(z, 'ceil')}
+                        origin_ok = fl(bo) == fl(want_bo) and fl(ci) == fl(want_ci) and \
+                            all(dict(bo.terms).get(m_) == c_ for m_, c_ in want_bo.terms if fl(Poly(((m_, c_),)))) and \
+                            all(dict(ci.terms).get(m_) == c_ for m_, c_ in want_ci.terms if fl(Poly(((m_, c_),))))
+                        pair_ok = (bo == want_bo and ci == want_ci) or not origin_ok
+                        cross_ok = coef[(0, 0)] == A * bo * ci
+                    else:
+                        origin_ok = pair_ok = cross_ok = True     # the coefficient finding explains the difference
+                    chk.ob('C01-d', 'N-origin', 'fourier._dft2_coords', f'{axis} kernel coordinate origins [{label}]',
+                           bool(origin_ok), f'coordinates are (u {fmt(bo) if alpha_ok else "?"}) and (x {fmt(ci) if alpha_ok else "?"}); '
+                           f'expected origins floor(N/2), floor(n/2)', f.loc(p.node))
+                    chk.ob('C01-a', 'N-pairing', 'fourier._dft2_matrices', f'{axis} kernel offset/shift pairing [{label}]',
+                           bool(pair_ok and cross_ok),
+                           f'phase[{fmt(so)},{fmt(si)}] = -2*pi*1j*alpha*(u + b)(x + c) needs b = {fmt(out_c - so)}, c = {fmt(in_c - si)} '
+                           f'and the constant term b*c; found b = {fmt(bo) if alpha_ok else "?"}, c = {fmt(ci) if alpha_ok else "?"}, '
+                           f'constant term {"ok" if cross_ok else "not b*c (the shift x offset cross term is wrong)"}',
                            f.loc(p.node))
-                    chk.ob('C01-a', 'N-pairing', 'fourier._dft2_matrices', f'{axis} kernel alpha [{label}]',
-                           kc == kconst * al, f'{axis} kernel uses {fmt(kc)}; expected {fmt(kconst * al)}',
-                           f.loc(p.node))
-                    for nm, got, want_v in (('first', A, wantA), ('second', B, wantB)):
-                        # split: origin (d) vs offset/shift pairing (a)
-                        diff = got - want_v
-                        origin_bad = any(is_app(x, 'floor') or is_app(x, 'ceil') or is_app(x, 'arange')
-                                         for x in diff.atoms())
-                        chk.ob('C01-d', 'N-origin', 'fourier._dft2_coords', f'{axis} kernel {nm} coordinate origin [{label}]',
-                               not origin_bad, f'coordinate vector is {fmt(got)}; expected {fmt(want_v)}', f.loc(p.node))
-                        chk.ob('C01-a', 'N-pairing', 'fourier._dft2_matrices',
-                               f'{axis} kernel {nm} coordinate offset/shift [{label}]',
-                               origin_bad or diff.is_zero(),
-                               f'coordinate vector is {fmt(got)}; expected {fmt(want_v)}', f.loc(p.node))
 
     # ---------------------------------------------------------------- C01-h
     fid = repo.func('fourier.idft2')
